@@ -594,12 +594,6 @@ theorem C01_passesN_preserve_nodepth (S : Song) (l : List Song) (hc : chainN S l
 
 /-! ## the loop branch of `apply_match` is a loop fold -/
 
-theorem lsEv_kind : lsEv.kind = .loopStart := by decide
-theorem lbEv_kind : lbEv.kind = .loopBreak := by decide
-theorem leEv_kind (n : Int) : (leEv n).kind = .loopEnd := by
-  show kindOfType ev_LOOP_END = .loopEnd
-  decide
-
 /-- **The loop branch of `apply_match` is one loop fold** (`Step.fold` if the matched length is
 not a multiple of the period — a `LOOP_BREAK` is emitted — and `Step.fold0` otherwise), up to
 `LOOP_BREAK` params.
@@ -843,20 +837,6 @@ theorem C01_optimize_preserves_partial (song : Song) (minScore : Int) (fuel : Na
 
 /-! ## the subroutine branch of `apply_match` is a subroutine extraction -/
 
-theorem jumpEvent_kind (subId : Int) : (jumpEvent subId).kind = .jump := by
-  show kindOfType ev_JUMP = .jump
-  decide
-
-theorem lookup_map_snd {β γ : Type} (l : List (Nat × β)) (f : Nat → β → γ) (k : Nat) :
-    (l.map fun p => (p.1, f p.1 p.2)).lookup k = (l.lookup k).map (f k) := by
-  induction l with
-  | nil => rfl
-  | cons p r ih =>
-    by_cases h : k = p.1
-    · subst h; simp [List.lookup]
-    · have h' : (k == p.1) = false := by simp [h]
-      simp [List.lookup, h', ih]
-
 /-- from the invariant of `find_subroutines` to an extraction step (up to `LOOP_BREAK` params):
 the intermediate song `S1` is the original one with every replaced occurrence made an exact copy
 of the phrase -/
@@ -1097,12 +1077,6 @@ end Ctrmml.C01
 /-! ## termination of the pass loop -/
 namespace Ctrmml.C01
 open Ctrmml Ctrmml.Tree Ctrmml.Expand Ctrmml.Rewrite Ctrmml.Opt Ctrmml.OptSteps Tables
-
-theorem isBracket_ls : isBracket lsEv = true := by decide
-theorem isBracket_lb : isBracket lbEv = true := by decide
-theorem isBracket_le (n : Int) : isBracket (leEv n) = true := by
-  show (ev_LOOP_END == ev_LOOP_START || ev_LOOP_END == ev_LOOP_END || ev_LOOP_END == ev_LOOP_BREAK) = true
-  decide
 
 /-- **A pass that folds a loop strictly decreases the termination measure** `(number of events,
 number of events that are not loop brackets/breaks)` lexicographically: it erases `L ≥ 3` events,
